@@ -349,7 +349,8 @@ func (db *RockDB) ZFixKey(ts int64, key []byte) error {
 		dbLog.Infof("get zset card failed: %v", err.Error())
 		return err
 	}
-	elems, err := db.ZRange(key, 0, -1)
+	// use the log timestamp: what is found must be the same on every replica
+	elems, err := db.zRangeGeneric(ts, false, key, 0, -1, false)
 	if err != nil {
 		dbLog.Infof("get zset range failed: %v", err.Error())
 		return err
@@ -1012,8 +1013,13 @@ func (db *RockDB) ZRevRangeByScore(key []byte, min float64, max float64, offset 
 }
 
 func (db *RockDB) ZRangeGeneric(key []byte, start int, stop int, reverse bool) ([]common.ScorePair, error) {
-	tn := time.Now().UnixNano()
-	keyInfo, err := db.getCollVerKeyForRange(tn, ZSetType, key, true)
+	return db.zRangeGeneric(time.Now().UnixNano(), true, key, start, stop, reverse)
+}
+
+// zRangeGeneric ranges as of tn. Write commands must pass the timestamp of the
+// raft log entry (and no lock), reads the local time.
+func (db *RockDB) zRangeGeneric(tn int64, useLock bool, key []byte, start int, stop int, reverse bool) ([]common.ScorePair, error) {
+	keyInfo, err := db.getCollVerKeyForRange(tn, ZSetType, key, useLock)
 	if err != nil {
 		return nil, err
 	}
